@@ -62,6 +62,13 @@ def grammar(depth: int):
             if t1 != t2 and t1[0] != "any" and t2[0] != "any":
                 new.append((("union", t1, t2), Union[a1, a2]))
         allv += new
+    # unions with three members (a source may have more members than the target that accepts all of them)
+    at = {a: (("atom", a), a) for a in ATOMS}
+    for x, y, z in ((bool, int, NoneT), (int, str, NoneT), (int, float, str), (bool, int, str)):
+        if all(k in at for k in (x, y, z)):
+            allv.append((("union", ("union", at[x][0], at[y][0]), at[z][0]), Union[x, y, z]))
+    allv += [(("union", ("union", ("list", at[int][0]), ("list", at[str][0])), at[NoneT][0]), Union[list[int], list[str], None]),
+             (("opt", ("list", ("any",))), Optional[list[Any]])]
     allv += [(("typevar", "bound-int"), TB), (("typevar", "constr-int-str"), TC), (("typevar", "free"), TU)]
     # de-duplicate by term
     seen, out = set(), []
@@ -174,7 +181,10 @@ def _pipe_cases(tier, rng):
     for _ in range(n):
         (ta, a), (tb, b) = rng.choice(g), rng.choice(g)
         yield {"src": ta, "dst": tb, "wiring": rng.choice(("direct", "elementwise", "reduction", "reduction-mapped-consumer")),
-               "validate": rng.random() < 0.85}
+               "validate": rng.random() < 0.85,
+               # how the mapped producer gets its axes: from one input, from two zipped inputs, or one axis from each of
+               # two inputs (outer product)
+               "producer": rng.choice(("single", "single", "zip", "outer"))}
     # one mapped output with two consumers, one through a reduction and one element-wise, in both listing orders:
     # every edge is judged on its own
     for _ in range(n // 3):
@@ -235,26 +245,34 @@ def _check_pipe(case):
     # explicit annotation objects (this module uses postponed evaluation, so literal annotations would be strings)
     producer.__annotations__ = {"x": int, "return": a}
     consumer.__annotations__ = {"y": b, "return": int}
+    pk = case.get("producer", "single")
+    if pk != "single" and wiring != "direct":
+        def producer(x, w):  # noqa: F811
+            return x
+        producer.__annotations__ = {"x": int, "w": int, "return": a}
+    pspec, ix = {"single": ("x[i] -> y[i]", "i"), "zip": ("x[i], w[i] -> y[i]", "i"),
+                 "outer": ("x[i], w[j] -> y[i, j]", "i, j")}[pk]
 
     if wiring == "direct":
         f = pipefunc(output_name="y")(producer)
         g = pipefunc(output_name="z")(consumer)
         edge_ok = ref_compat(case["src"], case["dst"])
     elif wiring == "elementwise":
-        f = pipefunc(output_name="y", mapspec="x[i] -> y[i]")(producer)
-        g = pipefunc(output_name="z", mapspec="y[i] -> z[i]")(consumer)
+        f = pipefunc(output_name="y", mapspec=pspec)(producer)
+        g = pipefunc(output_name="z", mapspec=f"y[{ix}] -> z[{ix}]")(consumer)
         edge_ok = ref_compat(case["src"], case["dst"])
     elif wiring == "reduction-mapped-consumer":  # the consumer maps over another argument and takes y whole
         def consumer2(y, a):
             return 1
         consumer2.__annotations__ = {"y": b, "a": int, "return": int}
-        f = pipefunc(output_name="y", mapspec="x[i] -> y[i]")(producer)
-        g = pipefunc(output_name="z", mapspec="a[j] -> z[j]")(consumer2)
+        f = pipefunc(output_name="y", mapspec=pspec)(producer)
+        g = pipefunc(output_name="z", mapspec="a[k] -> z[k]")(consumer2)
         src = case["src"] if case["src"][0] == "array" else ("array", case["src"])
         edge_ok = ref_compat(src, case["dst"])
-    else:  # reduction: the consumer receives Array[a]
-        f = pipefunc(output_name="y", mapspec="x[i] -> y[i]")(producer)
-        g = pipefunc(output_name="z")(consumer)
+    else:  # reduction: the consumer receives Array[a] (whole, or - for a two-dimensional output - row by row)
+        f = pipefunc(output_name="y", mapspec=pspec)(producer)
+        g = pipefunc(output_name="z", mapspec="y[i, :] -> z[i]")(consumer) if pk == "outer" and case["src"][0] != "any" \
+            and len(repr(case["dst"])) % 2 else pipefunc(output_name="z")(consumer)
         # (an output that is already annotated as an object array is not wrapped again: stated reading)
         src = case["src"] if case["src"][0] == "array" else ("array", case["src"])
         edge_ok = ref_compat(src, case["dst"])
